@@ -36,9 +36,17 @@ def f_e(d, b):
     return {"e": d, "bn": b["n"]}
 
 
+VARIANT = {"empty_leaf": False}  # set per case by run_file (forked children inherit it)
+
+
+def f_t(a):
+    CALLS["t"] += 1
+    return ""  # a complete, legal value: the empty text (an empty header, an empty log, "no warnings")
+
+
 def build(d, shape, c_json=False, path_source=False):
     import uberjob
-    from uberjob.stores import JsonFileStore, PathSource, PickleFileStore
+    from uberjob.stores import JsonFileStore, PathSource, PickleFileStore, TextFileStore
 
     plan = uberjob.Plan()
     reg = uberjob.Registry()
@@ -60,6 +68,12 @@ def build(d, shape, c_json=False, path_source=False):
         reg.add(e, stores["e"])
         nodes["e"] = e
     deps = {"b": ["a"], "c": ["b"], "d": ["a", "c"], "e": ["d", "b"]}
+    if VARIANT["empty_leaf"]:
+        stores["t"] = TextFileStore(P("t.txt"))
+        tt = plan.call(f_t, a)
+        reg.add(tt, stores["t"])
+        nodes["t"] = tt
+        deps["t"] = ["a"]
     if path_source:
         # a second source: a file that b merely depends on (a PathSource, the same object for the whole history): b is out of date when that
         # file is newer. It is kept out of `nodes` (it is not computed) but has a store entry and a place in the dependency table.
@@ -81,6 +95,8 @@ def scratch_values(aval, names):
         v["d"] = json.loads(json.dumps(f_d(aval, v["c"])))
     if "e" in names:
         v["e"] = json.loads(json.dumps(f_e(v["d"], v["b"])))
+    if "t" in names:
+        v["t"] = ""
     return v
 
 
@@ -336,6 +352,9 @@ def run_case(desc):
     rng = random.Random(desc["seed"])
     shape = rng.choice([0, 1, 2])
     names = ["a", "b", "c"] + (["d"] if shape >= 1 else []) + (["e"] if shape >= 2 else [])
+    VARIANT["empty_leaf"] = desc["seed"] % 3 == 0  # one more stored value whose complete value is the EMPTY text (a zero-length file)
+    if VARIANT["empty_leaf"]:
+        names.append("t")
     initial = rng.choice(["empty", "stale_after_update", "partial"])
     W = rng.choice([1, 2])
     c_json = rng.random() < 0.5
